@@ -194,10 +194,18 @@ EnNext(s, a) ==
   /\ (s.it.ph \in Live => ~s.closed)
   /\ \/ a.fault = "none"
      \/ a.fault \in ((Steps \cup {AnyStep}) \ {"open"}) /\ ~s.faulted /\ WillRender(s)
+     \* on exhaustion the caller's own PIL image is sought back to frame 0: that seek can fail
+     \/ a.fault = "seek" /\ ~s.faulted /\ s.it.ph \in Live /\ Exhausts(s.it) /\ s.kind = "pil"
 
 ApNext(s, a) ==
   LET it == s.it IN
   IF it.ph = "closed" THEN R(s, a, s, "stop", NoFrame, FALSE, 0, FALSE, 0)
+  ELSE IF Exhausts(it) /\ a.fault # "none" THEN
+    R(s, a,
+      [s EXCEPT !.tell = -1, !.handles = CloseOwner(@, "iter"), !.faulted = TRUE,
+                !.it = [it EXCEPT !.ph = "closed", !.rep = 0, !.n = 0,
+                                  !.passes = @ + 1, !.seekTo = -1]],
+      "fault", NoFrame, FALSE, 0, FALSE, 0)
   ELSE IF Exhausts(it) THEN
     R(s, a,
       [s EXCEPT !.tell = 0, !.handles = CloseOwner(@, "iter"),
